@@ -23,7 +23,7 @@
     * column order of concatenations (python set) ..................... `RecsEquiv`, `concat_keys_perm`, `concat_any_order`, `equiv_observe`
     * stretch .......................................................... `concat_assoc`, `mask_col`
     * review round 2: masks against a reading without `zipper` ........ `abs_getMask_plain`, `mask_plain_exact`, `mask_one_row_repeats`
-                      rows + header, ragged rows ....................... `new_rows_ragged`, `spec_new_rows_ragged`, `new_rows_ragged_header1`
+                      rows + header, ragged rows ....................... `new_rows_ragged`, `spec_new_rows_ragged`, `new_rows_header1`
                       aliasing (handles as pointers, TableAlias.lean) .. `rframe_step`, `ralias_shared`, `rrect_step`, `rabs_step`, `rstep_noalias`, `rrun_noalias`
 -/
 import PygProofs.Lemmas.TableAbsHeap
@@ -1741,7 +1741,7 @@ transposed columns with the header (a single transposed column is repeated under
     (for `c = 1` this says: all rows of length 1 are taken as they are);
   * (failure, `c ≠ 1`) the constructor raises `ValueError` if and only if some row has a length that is
     neither `c` nor 1.  Together: for `c ≠ 1` the result is determined for EVERY list of rows.
-For a header of ONE name the outer `zipper` repeats the name instead: see `new_rows_ragged_header1`. -/
+For a header of ONE name see `new_rows_header1` (several cells under one name: `ValueError`, repaired code). -/
 theorem new_rows_ragged (cs : List String) (rs : List (List Cell)) (hcs : cs.Nodup) (hk : cs ≠ []) :
     ((∀ r ∈ rs, r.length = cs.length ∨ r.length = 1) →
       construct (.rows rs) (some cs) [] = some (.ok (ofRows cs (rs.map (bcast cs.length)))) ∧
